@@ -74,7 +74,7 @@ def run(tier):
     spec = C04Spec()
     if tier == "quick":
         return e1check.run_e1(spec, tier, depth=4, state_budget=600000, time_budget=600, rule=RULE, assumptions=ASSUMPTIONS)
-    return e1check.run_e1(spec, tier, depth=5, state_budget=3000000, time_budget=2400, rule=RULE, assumptions=ASSUMPTIONS)
+    return e1check.run_e1(spec, tier, depth=5, state_budget=3000000, time_budget=1500, rule=RULE, assumptions=ASSUMPTIONS)
 
 
 def replay(data):
